@@ -1,0 +1,173 @@
+//! This module renames shadowing binders apart before the translation. The translation places
+//! continuations (which may mention variables, covariables and labels of an outer scope) under
+//! the binders of `let`s, clauses and labels. If such a binder reuses a name that is already in
+//! scope, the outer name would be captured. Binders that do not shadow anything keep their name.
+
+use fun::syntax::{
+    arguments::Arguments,
+    context::TypingContext,
+    names::{Name, fresh_name},
+    terms::{Clause, Term},
+};
+use fun::traits::used_binders::UsedBinders;
+
+use std::collections::HashSet;
+use std::rc::Rc;
+
+struct Renamer {
+    /// names in scope: (name in the source, name after renaming), innermost last
+    scope: Vec<(Name, Name)>,
+    /// all names that must not be picked as fresh names
+    used: HashSet<Name>,
+}
+
+impl Renamer {
+    fn lookup(&self, name: &Name) -> Name {
+        match self.scope.iter().rev().find(|(source, _)| source == name) {
+            Some((_, renamed)) => renamed.clone(),
+            None => name.clone(),
+        }
+    }
+
+    /// This method enters a binder and returns the name to use for it.
+    fn bind(&mut self, name: &Name) -> Name {
+        let shadows = self
+            .scope
+            .iter()
+            .any(|(source, renamed)| source == name || renamed == name);
+        let renamed = if shadows {
+            fresh_name(&mut self.used, name)
+        } else {
+            name.clone()
+        };
+        self.scope.push((name.clone(), renamed.clone()));
+        renamed
+    }
+
+    fn rc(&mut self, term: Rc<Term>) -> Rc<Term> {
+        Rc::new(self.term(Rc::unwrap_or_clone(term)))
+    }
+
+    fn args(&mut self, mut args: Arguments) -> Arguments {
+        args.entries = args
+            .entries
+            .into_iter()
+            .map(|term| self.term(term))
+            .collect();
+        args
+    }
+
+    fn clause(&mut self, mut clause: Clause) -> Clause {
+        let depth = self.scope.len();
+        for (position, name) in clause.context_names.bindings.iter_mut().enumerate() {
+            let renamed = self.bind(name);
+            if let Some(binding) = clause.context.bindings.get_mut(position) {
+                binding.var.clone_from(&renamed);
+            }
+            *name = renamed;
+        }
+        clause.body = self.term(clause.body);
+        self.scope.truncate(depth);
+        clause
+    }
+
+    fn term(&mut self, term: Term) -> Term {
+        match term {
+            Term::XVar(mut var) => {
+                var.var = self.lookup(&var.var);
+                var.into()
+            }
+            Term::Lit(lit) => lit.into(),
+            Term::Op(mut op) => {
+                op.fst = self.rc(op.fst);
+                op.snd = self.rc(op.snd);
+                op.into()
+            }
+            Term::IfC(mut ifc) => {
+                ifc.fst = self.rc(ifc.fst);
+                ifc.snd = ifc.snd.map(|snd| self.rc(snd));
+                ifc.thenc = self.rc(ifc.thenc);
+                ifc.elsec = self.rc(ifc.elsec);
+                ifc.into()
+            }
+            Term::PrintI64(mut print) => {
+                print.arg = self.rc(print.arg);
+                print.next = self.rc(print.next);
+                print.into()
+            }
+            Term::Let(mut r#let) => {
+                r#let.bound_term = self.rc(r#let.bound_term);
+                let depth = self.scope.len();
+                r#let.variable = self.bind(&r#let.variable);
+                r#let.in_term = self.rc(r#let.in_term);
+                self.scope.truncate(depth);
+                r#let.into()
+            }
+            Term::Call(mut call) => {
+                call.args = self.args(call.args);
+                call.into()
+            }
+            Term::Constructor(mut ctor) => {
+                ctor.args = self.args(ctor.args);
+                ctor.into()
+            }
+            Term::Destructor(mut dtor) => {
+                dtor.scrutinee = self.rc(dtor.scrutinee);
+                dtor.args = self.args(dtor.args);
+                dtor.into()
+            }
+            Term::Case(mut case) => {
+                case.scrutinee = self.rc(case.scrutinee);
+                case.clauses = case
+                    .clauses
+                    .into_iter()
+                    .map(|clause| self.clause(clause))
+                    .collect();
+                case.into()
+            }
+            Term::New(mut new) => {
+                new.clauses = new
+                    .clauses
+                    .into_iter()
+                    .map(|clause| self.clause(clause))
+                    .collect();
+                new.into()
+            }
+            Term::Label(mut label) => {
+                let depth = self.scope.len();
+                label.label = self.bind(&label.label);
+                label.term = self.rc(label.term);
+                self.scope.truncate(depth);
+                label.into()
+            }
+            Term::Goto(mut goto) => {
+                goto.target = self.lookup(&goto.target);
+                goto.term = self.rc(goto.term);
+                goto.into()
+            }
+            Term::Exit(mut exit) => {
+                exit.arg = self.rc(exit.arg);
+                exit.into()
+            }
+            Term::Paren(mut paren) => {
+                paren.inner = self.rc(paren.inner);
+                paren.into()
+            }
+        }
+    }
+}
+
+/// This function gives every binder in the body of a top-level function that shadows a name in
+/// scope a fresh name.
+/// - `body` is the body of the top-level function.
+/// - `context` is the parameter list of the top-level function.
+pub fn rename_shadowing_binders(body: Term, context: &TypingContext) -> Term {
+    let mut used = context.vars();
+    body.used_binders(&mut used);
+    let scope = context
+        .bindings
+        .iter()
+        .map(|binding| (binding.var.clone(), binding.var.clone()))
+        .collect();
+    Renamer { scope, used }.term(body)
+}
